@@ -60,6 +60,29 @@ func C08(c *Ctx) {
 	}
 	find(mw)
 	if handler == nil {
+		// the closure turned into a method of a small struct built by the middleware
+		// constructor: the one function of the package that loads the current user and
+		// hands the request on to a wrapped handler
+		var cands []*ssa.Function
+		for _, f := range c.P.Funcs {
+			if pkgOf(f) != "ab" || f == mw || len(CallsTo(f, fnLoadCurrentUser)) == 0 {
+				continue
+			}
+			passes := false
+			for _, call := range Calls(f) {
+				if call.Common().IsInvoke() && call.Common().Method.Name() == "ServeHTTP" {
+					passes = true
+				}
+			}
+			if passes {
+				cands = append(cands, f)
+			}
+		}
+		if len(cands) == 1 {
+			handler = cands[0]
+		}
+	}
+	if handler == nil {
 		r.Unknown("C08.tt", FuncName(mw), "handler closure", "-", "request closure calling LoadCurrentUser not found")
 		return
 	}
@@ -510,7 +533,7 @@ func (c *Ctx) c08Redirect(fail *ssa.Function) {
 		// shape: last concatenation appends "?"+RawQuery to a value that does not contain RawQuery
 	}
 	// (a refusal written out in the handler appears once per refusing branch)
-	r.Check(nSet == 1 || (nSet > 1 && fail.Parent() != nil && len(fail.AnonFuncs) == 0 && len(CallsTo(fail, fnLoadCurrentUser)) > 0), "C08.redir", fnm, "vals.Set(redir, …)", c.P.Pos(fail.Pos()), "one assignment of the return target per refusal", sprintf("expected one vals.Set(%q, …), found %d", redirKey, nSet))
+	r.Check(nSet == 1 || (nSet > 1 && len(fail.AnonFuncs) == 0 && len(CallsTo(fail, fnLoadCurrentUser)) > 0), "C08.redir", fnm, "vals.Set(redir, …)", c.P.Pos(fail.Pos()), "one assignment of the return target per refusal", sprintf("expected one vals.Set(%q, …), found %d", redirKey, nSet))
 	for _, call := range Calls(fail) {
 		n := Callee(call)
 		if n != "path.Join" && n != "path.Clean" && n != "path/filepath.Join" && n != "path/filepath.Clean" {
